@@ -61,4 +61,127 @@ theorem write_once {ε β : Type} (enc : ε → List β) (len8 : Nat → List β
   generalize entries.any mf = a
   cases nilFD <;> cases sf <;> cases a <;> cases wf <;> cases syf <;> simp [List.filter]
 
+/-! ### `WAL.Read` -/
+
+/-- what the translated reader assumes of the codec functions it is given -/
+structure CodecOK {ε β : Type} (enc : ε → List β) (len8 : Nat → List β) (dec8 : List β → Int) (unm : List β → Option ε) : Prop where
+  len8_len : ∀ n, (len8 n).length = 8
+  dec8_len8 : ∀ n rest, n < 2 ^ 63 → dec8 (len8 n ++ rest) = (n : Int)
+  unm_enc : ∀ e, unm (enc e) = some e
+
+/-- one complete record is read and the loop goes on behind it -/
+theorem loop_record {ε β : Type} {enc : ε → List β} {len8 : Nat → List β} {dec8 : List β → Int} {unm : List β → Option ε}
+    (hc : CodecOK enc len8 dec8 unm) (dflt : ε) (e : ε) (hs : (enc e).length < 2 ^ 63) (rest : List β) (entries : List ε) (fuel : Nat) :
+    GenWal.read.loop1 dec8 unm dflt (fun _ entries => some entries) (fuel + 1) (len8 (enc e).length ++ enc e ++ rest) entries =
+      GenWal.read.loop1 dec8 unm dflt (fun _ entries => some entries) fuel rest (entries ++ [e]) := by
+  have h8 := hc.len8_len (enc e).length
+  have hd : dec8 (len8 (enc e).length ++ enc e ++ rest) = ((enc e).length : Int) := by
+    rw [List.append_assoc]; exact hc.dec8_len8 _ _ hs
+  have hdrop : (len8 (enc e).length ++ enc e ++ rest).drop 8 = enc e ++ rest := by
+    rw [List.append_assoc, List.drop_append_of_le_length (by omega), ← h8, List.drop_length, List.nil_append]
+  rw [GenWal.read.loop1]
+  simp only [hd, hdrop, List.length_append, h8, Bool.false_eq_true, ↓reduceIte, Int.toNat_natCast, List.take_left', List.drop_left',
+    hc.unm_enc, Option.isNone_some, Option.getD_some]
+  have h1 : decide (0 < 8 + (enc e).length + rest.length) = true := decide_eq_true (by omega)
+  have h2 : decide (8 + (enc e).length + rest.length < 8) = false := decide_eq_false (by omega)
+  have h3 : (decide (((enc e).length : Int) < 0) || decide ((((enc e).length + rest.length : Nat) : Int) < ((enc e).length : Int))) = false := by
+    simp only [Bool.or_eq_false_iff, decide_eq_false_iff_not]
+    omega
+  rw [h1, h2, h3]
+  rfl
+
+/-- `cut` is what a crash may leave of a record: a proper prefix of its bytes (possibly nothing) -/
+def Torn {ε β : Type} (enc : ε → List β) (len8 : Nat → List β) (cut : List β) : Prop :=
+  cut = [] ∨ ∃ e suffix, suffix ≠ [] ∧ (enc e).length < 2 ^ 63 ∧ cut ++ suffix = len8 (enc e).length ++ enc e
+
+/-- at a torn tail the loop stops and keeps what it has read -/
+theorem loop_torn {ε β : Type} {enc : ε → List β} {len8 : Nat → List β} {dec8 : List β → Int} {unm : List β → Option ε}
+    (hc : CodecOK enc len8 dec8 unm) (dflt : ε) (cut : List β) (ht : Torn enc len8 cut) (entries : List ε) (fuel : Nat) :
+    GenWal.read.loop1 dec8 unm dflt (fun _ entries => some entries) (fuel + 1) cut entries = some entries := by
+  rw [GenWal.read.loop1]
+  rcases ht with rfl | ⟨e, suffix, hne, hs, heq⟩
+  · simp
+  · by_cases hpos : 0 < cut.length
+    · simp only [hpos, decide_true, ↓reduceIte]
+      by_cases h8 : cut.length < 8
+      · simp [h8]
+      · simp only [h8, decide_false, Bool.false_eq_true, ↓reduceIte]
+        have hl := hc.len8_len (enc e).length
+        have htake : cut.take 8 = len8 (enc e).length := by
+          have := congrArg (List.take 8) heq
+          rw [List.take_append_of_le_length (by omega), List.take_append_of_le_length (by omega), ← hl, List.take_length] at this
+          rw [hl] at this
+          exact this
+        have hcut : cut = len8 (enc e).length ++ cut.drop 8 := by
+          conv => lhs; rw [← List.take_append_drop 8 cut, htake]
+        have hdropeq : cut.drop 8 ++ suffix = enc e := by
+          have := congrArg (List.drop 8) heq
+          rw [List.drop_append_of_le_length (by omega), List.drop_append_of_le_length (by omega), ← hl, List.drop_length, List.nil_append] at this
+          rw [hl] at this
+          exact this
+        have hshort : (cut.drop 8).length < (enc e).length := by
+          have := congrArg List.length hdropeq
+          have hsl : 0 < suffix.length := List.length_pos_iff.mpr hne
+          simp only [List.length_append] at this
+          omega
+        have hd : dec8 cut = ((enc e).length : Int) := by rw [hcut]; exact hc.dec8_len8 _ _ hs
+        rw [hd]
+        have : (decide (((enc e).length : Int) < 0) || decide (((cut.drop 8).length : Int) < ((enc e).length : Int))) = true := by
+          simp only [Bool.or_eq_true, decide_eq_true_eq]
+          right; omega
+        rw [if_pos this]
+    · have : cut = [] := List.eq_nil_of_length_eq_zero (by omega)
+      subst this
+      simp
+
+theorem loop_records {ε β : Type} {enc : ε → List β} {len8 : Nat → List β} {dec8 : List β → Int} {unm : List β → Option ε}
+    (hc : CodecOK enc len8 dec8 unm) (dflt : ε) (es : List ε) (hs : ∀ e ∈ es, (enc e).length < 2 ^ 63) (cut : List β)
+    (ht : Torn enc len8 cut) (entries : List ε) (fuel : Nat) (hf : es.length < fuel) :
+    GenWal.read.loop1 dec8 unm dflt (fun _ entries => some entries) fuel (batchBytes enc len8 es ++ cut) entries = some (entries ++ es) := by
+  induction es generalizing entries fuel with
+  | nil =>
+    obtain ⟨f, rfl⟩ : ∃ f, fuel = f + 1 := ⟨fuel - 1, by simp at hf; omega⟩
+    simp only [batchBytes, List.flatMap_nil, List.nil_append, List.append_nil]
+    exact loop_torn hc dflt cut ht entries f
+  | cons e es ih =>
+    obtain ⟨f, rfl⟩ : ∃ f, fuel = f + 1 := ⟨fuel - 1, by simp at hf; omega⟩
+    have : batchBytes enc len8 (e :: es) ++ cut = len8 (enc e).length ++ enc e ++ (batchBytes enc len8 es ++ cut) := by
+      simp [batchBytes, List.append_assoc]
+    rw [this, loop_record hc dflt e (hs e (by simp)) _ entries f]
+    rw [ih (fun x hx => hs x (by simp [hx])) (entries ++ [e]) f (by simp at hf; omega)]
+    simp
+
+theorem batchBytes_length_ge {ε β : Type} (enc : ε → List β) (len8 : Nat → List β) (h8 : ∀ n, (len8 n).length = 8) (es : List ε) :
+    es.length ≤ (batchBytes enc len8 es).length := by
+  induction es with
+  | nil => simp [batchBytes]
+  | cons e es ih =>
+    simp only [batchBytes, List.flatMap_cons, List.length_append, List.length_cons, h8] at ih ⊢
+    omega
+
+/-- **what `WAL.Write` wrote, `WAL.Read` reads back — also when the file ends in a torn record.**  The file holds the records
+    of `es` (any number of batches, `batchBytes` of their concatenation) followed by `cut`, a proper prefix of one more record
+    or nothing: the translated `Read` returns exactly `es`, no error -/
+theorem read_back {ε β : Type} {enc : ε → List β} {len8 : Nat → List β} {dec8 : List β → Int} {unm : List β → Option ε}
+    (hc : CodecOK enc len8 dec8 unm) (dflt : ε) (es : List ε) (hs : ∀ e ∈ es, (enc e).length < 2 ^ 63) (cut : List β)
+    (ht : Torn enc len8 cut) :
+    GenWal.read dec8 unm dflt false false false false (batchBytes enc len8 es ++ cut) = some es := by
+  unfold GenWal.read
+  simp only [Bool.false_eq_true, ↓reduceIte]
+  by_cases h0 : (batchBytes enc len8 es ++ cut).length = 0
+  · simp only [h0, decide_true, ↓reduceIte]
+    have hb : es.length ≤ (batchBytes enc len8 es).length := batchBytes_length_ge enc len8 hc.len8_len es
+    have : es.length = 0 := by simp only [List.length_append] at h0; omega
+    rw [List.eq_nil_of_length_eq_zero this]
+  · simp only [h0, decide_false, Bool.false_eq_true, ↓reduceIte]
+    have hb : es.length ≤ (batchBytes enc len8 es).length := batchBytes_length_ge enc len8 hc.len8_len es
+    have := loop_records hc dflt es hs cut ht [] ((batchBytes enc len8 es ++ cut).length + 1)
+      (by simp only [List.length_append]; omega)
+    simpa using this
+
+/-- `Read` on a wal that was deleted, or whose file cannot be read, is an error (the caller panics): nothing is invented -/
+theorem read_errors {ε β : Type} (dec8 : List β → Int) (unm : List β → Option ε) (dflt : ε) (st sk rd : Bool) (file : List β) :
+    GenWal.read dec8 unm dflt true st sk rd file = none ∧ GenWal.read dec8 unm dflt false true sk rd file = none := by
+  constructor <;> (unfold GenWal.read; simp)
+
 end WalTie
